@@ -138,7 +138,7 @@ func wf64str(x *roaring64.Bitmap) string {
 
 // ---------------------------------------------------------------------------------------------- serialization helpers
 
-var entries64 = map[string]bool{"readfrom": true, "readfrom1": true, "fromunsafe": true, "unmarshal": true, "base64": true}
+var entries64 = map[string]bool{"readfrom": true, "readfrom1": true, "readpipe": true, "fromunsafe": true, "unmarshal": true, "base64": true}
 
 // buffers handed to FromUnsafeBytes, with a pristine copy: the library must never write into them (bufchk64)
 type unsafeBuf struct{ live, pristine []byte }
@@ -176,6 +176,11 @@ func decode64(rb *roaring64.Bitmap, entry string, data []byte) (res decRes) {
 		r := bytes.NewReader(data)
 		res.n, err = rb.ReadFrom(iotest.OneByteReader(r))
 		res.cons = int64(len(data) - r.Len())
+	case "readpipe":
+		// the read end of an OS pipe: an *os.File (it HAS Seek, ReadAt, ... methods) that cannot seek
+		var rest int
+		res.n, rest, err = viaPipe(data, func(r io.Reader) (int64, error) { return rb.ReadFrom(r) })
+		res.cons = int64(len(data) - rest)
 	case "fromunsafe":
 		// the bitmap keeps references into the buffer: give it a private copy
 		buf := append(make([]byte, 0, len(data)), data...)
@@ -960,7 +965,7 @@ func init() {
 		var ser []byte
 		var err error
 		switch entry {
-		case "readfrom", "readfrom1":
+		case "readfrom", "readfrom1", "readpipe":
 			var w bytes.Buffer
 			_, err = x.WriteTo(&w)
 			ser = w.Bytes()
